@@ -1,6 +1,6 @@
 //! Worker-process entry point shared by all harness binaries.
 
-use crate::ctx::{Ctx, RunRecord, Tape, Violation, R};
+use crate::ctx::{Ctx, Focus, RunRecord, Tape, Violation, R};
 use crate::rng::Rng;
 use serde_json::{json, Value};
 use std::cell::RefCell;
@@ -73,7 +73,7 @@ pub struct RunOut {
     pub max_single: usize,
 }
 
-pub fn run_one(s: &Scenario, tape: Tape, record: bool, focus: Option<BTreeMap<String, u64>>, thorough: bool) -> RunOut {
+pub fn run_one(s: &Scenario, tape: Tape, record: bool, focus: Focus, thorough: bool) -> RunOut {
     let ctx = Ctx::new(tape, record, focus, thorough);
     LAST_PANIC.with(|p| *p.borrow_mut() = None);
     set_component(s.name);
@@ -189,7 +189,7 @@ fn cmd_run(property: &str, scenarios: &[Scenario], args: &[String]) -> i32 {
         }
         let rs = Rng::run_seed(seed, s.name, run);
         let want_sample = samples.len() < 3 && !only_recheck;
-        let out = run_one(s, Tape::explore(rs), want_sample, None, thorough);
+        let out = run_one(s, Tape::explore(rs), want_sample, Focus::none(), thorough);
         evaluations += 1;
         steps += out.rec.steps;
         tape_draws += out.rec.tape.len() as u64;
@@ -229,7 +229,7 @@ fn cmd_run(property: &str, scenarios: &[Scenario], args: &[String]) -> i32 {
                 } else {
                     crate::shrink::shrink(s, values, v, thorough)
                 };
-                let fin = run_one(s, Tape::replay(min_values.clone()), true, Some(min_focus.clone()), thorough);
+                let fin = run_one(s, Tape::replay(min_values.clone()), true, Focus::exact(min_focus.clone()), thorough);
                 let (fin, fv) = match &fin.violation {
                     Some(fv) if fv.class == v.class && fv.component() == v.component() => {
                         let fv = fv.clone();
@@ -238,7 +238,7 @@ fn cmd_run(property: &str, scenarios: &[Scenario], args: &[String]) -> i32 {
                     _ => {
                         // fall back to the unshrunk tape
                         let values: Vec<u64> = out.rec.tape.iter().map(|t| t.2).collect();
-                        let f2 = run_one(s, Tape::replay(values), true, Some(v.at.clone()), thorough);
+                        let f2 = run_one(s, Tape::replay(values), true, Focus::exact(v.at.clone()), thorough);
                         let fv = f2.violation.clone().unwrap_or_else(|| v.clone());
                         (f2, fv)
                     }
@@ -311,7 +311,7 @@ fn cmd_replay(scenarios: &[Scenario], args: &[String]) -> i32 {
         }
     };
     let focus: Option<BTreeMap<String, u64>> = j["focus"].as_object().map(|o| o.iter().map(|(k, v)| (k.clone(), v.as_u64().unwrap_or(0))).collect());
-    let out = run_one(s, tape, true, focus, thorough);
+    let out = run_one(s, tape, true, focus.map(Focus::exact).unwrap_or_default(), thorough);
     for e in out.rec.events.iter().take(200) {
         println!("  ev {e}");
     }
